@@ -8,7 +8,7 @@ NOTE = ("Trusted base: CPython's ast parser, the analyser in /verif/sa, the CPyt
         "Static analysis only: nothing in /repo is imported or executed, no solver is called.")
 CLAIMS = {
  "C12": dict(
-  text="Effect/alias analysis of the five API closures x 4 interpreter versions: every mutation site is enumerated with the abstract objects it may touch; none may alias an API argument (incl. elements of shallow copies), module-level or class-level state; returned JSON containers are all allocated during the call. Decides the no-input-mutation / no-shared-state clauses for every input (they are shape properties of the code); repeatability follows from them and is not executed. The copy protocol (__copy__) and vars()/__dict__ aliasing are modelled; the equality behind 'equal results' is reflexive (constant key identifies NaNs).",
+  text="Effect/alias analysis of the five API closures x 4 interpreter versions: every mutation site is enumerated with the abstract objects it may touch; none may alias an API argument (incl. elements of shallow copies), module-level or class-level state; returned JSON containers are all allocated during the call. Decides the no-input-mutation / no-shared-state clauses for every input (they are shape properties of the code); repeatability follows from them and is not executed. The copy protocol (__copy__) and vars()/__dict__ aliasing are modelled; the equality behind 'equal results' is reflexive (constant key identifies NaNs). Process-wide settings touched by an API call are restored in a finally; object.__setattr__ is modelled as a field store.",
   technique="context-sensitive points-to / effect analysis (abstract interpretation over ast)", ref="5 C12"),
 }
 CLAIMS.update({
@@ -16,9 +16,9 @@ CLAIMS.update({
    technique="type-graph + ast rule checking; finite-domain evaluation of guards; attribute-read sets from abstract interpretation", ref="5 C05"),
  "C06": dict(text="Decides that normalize is a projection onto 'all private fields at their declared default' (every private field reachable in the type graph reset, every field reaching one recursed into, tuples element-wise), hence idempotent and independent of its input's artefacts, and that index assignment without override depends on first use only. Canonicity across table permutations additionally needs the decoder to be right on the variant (C02). A private field reset only under a guard is reported; JSON codec pairs and cell/free operand arithmetic are shared in.",
    technique="type-graph exhaustiveness check of the normalize dispatch (ast)", ref="5 C06"),
- "C08": dict(text="Decides the structural conditions of being an immutable hashable value: frozen data classes with deeply immutable field types; constructors in decode / JSON-load / normalize closures store only immutable shapes; hand-written __eq__ and __hash__ use the same key and cover all fields; constant key covers every leaf type, type-/sign-/NaN-exact and recursive. The relational laws follow from equality-by-key and are not executed. A nested code object is keyed by its whole value.",
+ "C08": dict(text="Decides the structural conditions of being an immutable hashable value: frozen data classes with deeply immutable field types; constructors in decode / JSON-load / normalize closures store only immutable shapes; hand-written __eq__ and __hash__ use the same key and cover all fields; constant key covers every leaf type, type-/sign-/NaN-exact and recursive. The relational laws follow from equality-by-key and are not executed. A nested code object is keyed by its whole value. A hand-written __eq__ is False for other classes.",
    technique="type graph + abstract interpretation of constructor arguments + key-expression comparison (ast)", ref="5 C08"),
- "C09": dict(text="Decides that the decoder's first-use rank depends on discovery state and mirrors the encoder's next-index rule, that an override is reported iff rank != index (finite-domain evaluation), that seeds agree on both sides, and that additional args are exactly the never-met indices of all four tables. The 'or removing the override would change the re-encoding' disjunct is not decided. The override expression is evaluated with pinned duplicates varied; the parameter seed may be spelled as a sum of counts.",
+ "C09": dict(text="Decides that the decoder's first-use rank depends on discovery state and mirrors the encoder's next-index rule, that an override is reported iff rank != index (finite-domain evaluation), that seeds agree on both sides, and that additional args are exactly the never-met indices of all four tables. The 'or removing the override would change the re-encoding' disjunct is not decided. The override expression is evaluated with pinned duplicates varied; the parameter seed may be spelled as a sum of counts. The encoder registers every stored entry for look-up by key; parameters are ranked in layout order; the pinned set only holds computed duplicates; unreferenced entries are not filtered.",
    technique="ast pattern + def/use of object state; finite-domain evaluation; provenance from abstract interpretation", ref="5 C09"),
  "C14": dict(text="Decides traversal exhaustiveness: for every type-graph route from CodeData to a nested CodeData, __iter__ yields the object at its end under a CodeData guard; all_code_data yields self first and recurses over iter(self); nested code constants are decoded by CodeData.from_code. Each nested code object is yielded once however many instructions load it; key-less orderings over code objects are reported; the check declines (exit 2) when the traversal goes through a helper.",
    technique="type-graph route enumeration vs. abstract interpretation of the generator", ref="5 C14"),
@@ -26,27 +26,27 @@ CLAIMS.update({
 CLAIMS.update({
  "C01": dict(text="Decides necessary structural clauses of losslessness per interpreter version: every code() slot's co_* attribute is read; role conservation (composing encoder provenance of each CodeType slot with decoder provenance of the fields it uses yields co_s and no foreign table); every data-class field is produced input-dependently and consumed by the encoder; every compiler-emittable flag has a representation (one known finding); inverse-pair constants. Byte equality for any particular program is not decided. Also decided: the line mapping built by the encoder has a key for every code unit when the table builder sizes the table from the last key; field-by-field rebuilds of data classes omit no field; identity tests never compare numbers/strings; decoder and encoder pre-assign the same table slots; widths of multi-unit jumps are recorded.",
    technique="inter-procedural provenance (context-sensitive abstract interpretation), composed across decoder and encoder; CPython contract tables", ref="5 C01"),
- "C02": dict(text="Decides the facts a mirrored decoder/encoder error would corrupt while the round trip stays green: category->table binding against each stdlib's opcode/dis tables, category exhaustiveness, jump scale and offset arithmetic by finite evaluation per version, cell/free split, line key = first code unit, accumulator reset. Correctness of each decoded value for a given program is not decided. Also: every EXTENDED_ARG prefix contributes to the operand (def-use over the parser loop); the decoded line is a running sum of table deltas.",
+ "C02": dict(text="Decides the facts a mirrored decoder/encoder error would corrupt while the round trip stays green: category->table binding against each stdlib's opcode/dis tables, category exhaustiveness, jump scale and offset arithmetic by finite evaluation per version, cell/free split, line key = first code unit, accumulator reset. Correctness of each decoded value for a given program is not decided. Also: every EXTENDED_ARG prefix contributes to the operand (def-use over the parser loop); the decoded line is a running sum of table deltas. The NoArg class is exactly the opcodes below HAVE_ARGUMENT per version; local memos are keyed by every loop-varying argument; every line that is not None is shifted.",
    technique="provenance by abstract interpretation + finite-domain evaluation of extracted expressions against CPython tables parsed from stdlib sources", ref="5 C02"),
- "C11": dict(text="Decides per interpreter version: residual flag bits are tested on every returning path; a typestate walk for each of the 18 flag names ends consumed or rejected, never surviving or dropped untested; consumed flags are re-produced; every header field is read; line-mapping leftovers and unusable argument counts are rejected. Numeric values of the flag enumeration (taken from the running interpreter) are not decided. Also: flag write-back may not depend on the kind of code object when the decoder consumes the flag unconditionally; pseudo-members of the flag enumeration (registered by calling the IntFlag class on a run-time word) cannot be accepted.",
+ "C11": dict(text="Decides per interpreter version: residual flag bits are tested on every returning path; a typestate walk for each of the 18 flag names ends consumed or rejected, never surviving or dropped untested; consumed flags are re-produced; every header field is read; line-mapping leftovers and unusable argument counts are rejected. Numeric values of the flag enumeration (taken from the running interpreter) are not decided. Also: flag write-back may not depend on the kind of code object when the decoder consumes the flag unconditionally; pseudo-members of the flag enumeration (registered by calling the IntFlag class on a run-time word) cannot be accepted. The flag decoder receives the whole flag word; names of *args / **kwargs are tested with `is None`; unreferenced table entries are all kept.",
    technique="path-sensitive typestate walk over the structured CFG, guided by points-to facts; stdlib flag tables parsed statically", ref="5 C11"),
 })
 CLAIMS.update({
- "C04": dict(text="Decides the co_varnames layout contract on both sides (symbolic evaluation of the decoder's slicing with linear forms over the argument counts on the four VARARGS x VARKEYWORDS paths; concatenation order of the encoder's prefix and seeds), the signature order and kinds of Args.parameters, count/flag derivation, the docstring rule and the function-kind inference by finite evaluation, and len(args). A round trip cannot see a layout error shared by both sides; comparison with inspect on real functions is not executed. The function kind is evaluated as a block over each flag subset the compiler can produce; negative slice bounds are understood.",
+ "C04": dict(text="Decides the co_varnames layout contract on both sides (symbolic evaluation of the decoder's slicing with linear forms over the argument counts on the four VARARGS x VARKEYWORDS paths; concatenation order of the encoder's prefix and seeds), the signature order and kinds of Args.parameters, count/flag derivation, the docstring rule and the function-kind inference by finite evaluation, and len(args). A round trip cannot see a layout error shared by both sides; comparison with inspect on real functions is not executed. The function kind is evaluated as a block over each flag subset the compiler can produce; negative slice bounds are understood. The argument decoder is called unconditionally; data classes keep the field values they are given; no substring membership tests on names.",
    technique="symbolic evaluation with linear forms + concatenation-order extraction + finite-domain evaluation (ast)", ref="5 C04"),
  "C07": dict(text="Decides agreement of encoder, decoder and JSON_SCHEMA: tag key sets, string enumerations, operand-class unions and discriminators; per field, every emittable JSON shape (armed where decoder provenance shows arbitrary values) is accepted by the schema node and converted back; strictness guards dominate raw numeric returns; only dicts/lists are built; default hiding is injective; decimal conversions of unbounded ints are reported (two known findings). Behaviour of JSON libraries and to_code() identity are not decided. Also: library codecs of a tag form an inverse pair; hidden defaults have no compare=False fields; encoded values are never ordered without a key.",
    technique="three-way structural comparison (ast of encoder/decoder, schema literal, type graph) + path-sensitive guard walk + provenance from abstract interpretation", ref="5 C07"),
- "C13": dict(text="Decides that block boundaries are a function of {0} U {decoded jump targets} only: initial value, sole writer, executed for every Jump operand; a block opens iff the instruction's first offset is in the sorted target list; unconditional append (no empty block, order-preserving partition); jump targets rewritten through the same sorted list. Jump operands are reassembled from all their prefixes (shared prefix-carry rule).",
+ "C13": dict(text="Decides that block boundaries are a function of {0} U {decoded jump targets} only: initial value, sole writer, executed for every Jump operand; a block opens iff the instruction's first offset is in the sorted target list; unconditional append (no empty block, order-preserving partition); jump targets rewritten through the same sorted list. Jump operands are reassembled from all their prefixes (shared prefix-carry rule). Index look-ups by bisect over a part of the target list are declined (exit 2); local memos are keyed by every loop-varying argument.",
    technique="ast rule checking over the decoder's two loops with points-to facts", ref="5 C13"),
 })
 CLAIMS.update({
- "C03": dict(text="Decides guards, keys and width constants the encoder cannot be right without on hand-built data: gap guard before table compaction and keyed collision check (finite evaluation on model index maps / values), constants table keyed by Constant.__eq__'s key function, exact constant key, operand-width thresholds and unit emission reassembling under the decoder's shift, no Optional line into arithmetic (two known findings on the lnotab path), relaxation-loop shape and agreement of all size computations. Termination/fixed-point correctness of relaxation and the synthesised line table are not decided. Also: the encoder keys an instruction's line at its first code unit; the None pin at constants[0] holds for every kind of function.",
+ "C03": dict(text="Decides guards, keys and width constants the encoder cannot be right without on hand-built data: gap guard before table compaction and keyed collision check (finite evaluation on model index maps / values), constants table keyed by Constant.__eq__'s key function, exact constant key, operand-width thresholds and unit emission reassembling under the decoder's shift, no Optional line into arithmetic (two known findings on the lnotab path), relaxation-loop shape and agreement of all size computations. Termination/fixed-point correctness of relaxation and the synthesised line table are not decided. Also: the encoder keys an instruction's line at its first code unit; the None pin at constants[0] holds for every kind of function. The table's index map is written by the checked setter only; lines are never tested by truthiness; flags are written back as described.",
    technique="finite-domain evaluation of extracted guards / threshold tables + points-to facts + ast shape rules", ref="5 C03"),
- "C10": dict(text="Decides ONLY the format constants of the line-table codec per format (merge thresholds = split emissions = CPython's limits over the whole byte domain; split-loop coherence; -128<->None sentinel iff linetable; (unsigned, signed) byte pairing). All arithmetic on tables (items_to_mapping, mapping_to_items, cursor logic, zero-width entries, no-line runs, trailing entries) quantifies over integer sequences and is explicitly NOT decided by static analysis here. Added: the mapping builder's running line is moved by adding deltas only (a necessary condition of the decoded-line clause); stage functions are located by their place in the drivers' call chains.",
+ "C10": dict(text="Decides ONLY the format constants of the line-table codec per format (merge thresholds = split emissions = CPython's limits over the whole byte domain; split-loop coherence; -128<->None sentinel iff linetable; (unsigned, signed) byte pairing). All arithmetic on tables (items_to_mapping, mapping_to_items, cursor logic, zero-width entries, no-line runs, trailing entries) quantifies over integer sequences and is explicitly NOT decided by static analysis here. Added: the mapping builder's running line is moved by adding deltas only (a necessary condition of the decoded-line clause); stage functions are located by their place in the drivers' call chains. Also decided (necessary conditions of the decoded-line and byte-identity clauses): deltas are taken against the last real line, the no-line marker survives continuation entries, shortcuts around the split loops stay within one entry, the lnotab walk cannot end while entries remain, lines are never tested by truthiness.",
    technique="finite-domain evaluation of extracted predicates over the format's value domain", ref="5 C10 and 8"),
  "C15": dict(text="Decides that nothing on the JSON / normalize paths can depend on the interpreter: closures identical under every version and free of sys/dis/opcode/platform/ctypes and derived constants; no version-conditional module-level definition; no version-dependent builtin applied to data (repr of str fixed; decimal int<->text is a known finding); every import resolves in the stdlib sources of 3.7..3.12 (parsed statically). Cross-library byte identity is not decided. Also: regular-expression syntax, isinstance against typing.Union aliases and run-time subscripts of builtin containers whose evaluation differs across 3.7..3.12.",
    technique="call/import closure scan with taint of version-derived constants; stdlib source tables", ref="5 C15"),
- "C16": dict(text="Decides on the console entry point: validation and dispatch range over the declared source options with the same null test; each source variable is used in the role of its option; printed value, JSON value and re-encoded value are one variable defined by from_code / normalize(self); flag polarity by finite evaluation of guards. Exit status and rendered text are not decided. Also: the parser takes argv literally (no @file expansion); the --json document is loadable and printable as the command prints it (shared JSON codec rules).",
+ "C16": dict(text="Decides on the console entry point: validation and dispatch range over the declared source options with the same null test; each source variable is used in the role of its option; printed value, JSON value and re-encoded value are one variable defined by from_code / normalize(self); flag polarity by finite evaluation of guards. Exit status and rendered text are not decided. Also: the parser takes argv literally (no @file expansion); the --json document is loadable and printable as the command prints it (shared JSON codec rules). Also: parse_args (nothing on the command line is ignored), -e evaluated with the builtins, the -c text compiled as given.",
    technique="ast rule checking of the CLI entry point with points-to facts + guard evaluation", ref="5 C16"),
 })
 NA = {}
